@@ -39,15 +39,15 @@ def _sanitize_user_aligned_axes(data, aligned_axes):
     """
     aligned_axes_error_message = ("aligned_axes must contain ints or "
                                   "a tuple of ints for each element in data.")
-    if isinstance(data[0].shape, tuple):
-        cube0_dims = np.array(data[0].shape, dtype=object)[np.array(aligned_axes[0])]
-    else:
-        cube0_dims = data[0].shape[np.array(aligned_axes[0])]
     # If user entered a single int or string, convert to length 1 tuple of int.
     if isinstance(aligned_axes, numbers.Integral):
         aligned_axes = (aligned_axes,)
     if not isinstance(aligned_axes, tuple):
         raise ValueError(aligned_axes_error_message)
+    if isinstance(data[0].shape, tuple):
+        cube0_dims = np.array(data[0].shape, dtype=object)[np.array(aligned_axes[0])]
+    else:
+        cube0_dims = data[0].shape[np.array(aligned_axes[0])]
     # Check type of each element.
     axes_all_ints = all([isinstance(axis, numbers.Integral) for axis in aligned_axes])
     axes_all_tuples = all([isinstance(axis, tuple) for axis in aligned_axes])
@@ -107,7 +107,9 @@ def _sanitize_user_aligned_axes(data, aligned_axes):
     if check_dimensions != {1}:
         raise ValueError("Aligned axes are not all of same length.")
 
-    return aligned_axes
+    # Negative axis numbers count from the last axis, as numpy does.
+    return tuple(tuple(axis + len(cube.shape) if axis < 0 else axis for axis in cube_aligned_axes)
+                 for cube, cube_aligned_axes in zip(data, aligned_axes))
 
 
 def _update_aligned_axes(drop_aligned_axes_indices, aligned_axes, first_key):
